@@ -58,6 +58,82 @@ def scan_loop_chars(t):
     return out
 
 
+def _vars(t):
+    out = set()
+    for s in subterms(t):
+        if isinstance(s, tuple) and len(s) == 2 and s[0] == "var" and isinstance(s[1], str):
+            out.add(s[1])
+    return out
+
+
+def scan_loop_discipline(t):
+    """In the scan loop: every `expr.next()` is the argument of a push into the buffer, every push's argument is
+    `expr.next()`, and the conditions guarding a push mention only the peeked character (and boolean flags set
+    from character tests)."""
+    from .justify import walk_ctx
+    loops = [s for s in subterms(t) if isinstance(s, tuple) and s and s[0] == "loop"]
+    if not loops:
+        return False, "no scan loop"
+    problems = []
+    bufs = set()
+    for lp in loops:
+        def v(node, anc):
+            if unify(NEXT, node) is not None:
+                chain = [p for (p, i) in anc]
+                # expected: (call String::push (var buf) (try NEXT)) or (call String::push (var buf) NEXT)
+                par = chain[-1] if chain else None
+                gp = chain[-2] if len(chain) > 1 else None
+                push = None
+                if par is not None and par[0] == "try" and gp is not None and gp[0] == "call" and gp[1] == "String::push":
+                    push = gp
+                elif par is not None and par[0] == "call" and par[1] == "String::push":
+                    push = par
+                if push is None:
+                    problems.append("a character is consumed without being pushed: %s" % T.show(par)[:80])
+                    return
+                bufs.add(push[2])
+                # guards between the loop and the push
+                for (p, i) in anc:
+                    if p[0] == "if" and len(p) == 4:
+                        c = p[1]
+                        for s2 in subterms(c):
+                            if isinstance(s2, tuple) and len(s2) > 1 and s2[0] == "call" and isinstance(s2[1], str):
+                                if s2[1] not in ("char::is_ascii_digit", "<&char as cmp::PartialEq>::eq", "<char as cmp::PartialEq>::eq", "Chars.peek"):
+                                    problems.append("push guarded by a non-character condition: %s" % s2[1])
+        walk_ctx(lp, v)
+        # pushes whose argument is not a consumed character
+        for s2 in subterms(lp):
+            if isinstance(s2, tuple) and len(s2) == 4 and s2[0] == "call" and s2[1] == "String::push":
+                a = s2[3]
+                if not (unify(NEXT, a) is not None or (isinstance(a, tuple) and a[0] == "try" and unify(NEXT, a[1]) is not None)):
+                    problems.append("push of something other than the consumed character: %s" % T.show(a)[:60])
+    return (not problems), "; ".join(problems[:3])
+
+
+def payload_discipline(t, ctors):
+    """Every produced token payload is a function of converter(buffer) only."""
+    problems = []
+    n = 0
+    for s in subterms(t):
+        e = M(("Some", ("ctor", "?c", "?v")), s)
+        if e and e["?c"] in ctors:
+            n += 1
+            v = e["?v"]
+            conv = converter_calls(v)
+            if not conv:
+                problems.append("payload is not produced by the converter: %s" % T.show(v)[:80])
+                continue
+            bufs = set()
+            for c in conv:
+                bufs |= _vars(c)
+            extra = _vars(v) - bufs
+            if extra:
+                problems.append("payload depends on %s besides the scanned text" % sorted(extra))
+    if n == 0:
+        problems.append("no token construction found")
+    return (not problems), "; ".join(problems[:3])
+
+
 def check_literals(run, m, tag):
     ev = m.ev
     lm = m.lex
@@ -85,6 +161,11 @@ def check_literals(run, m, tag):
     want_dot = ev != "eval_i64"
     run.ob(chars["digit"] and chars["dot"] == want_dot and sorted(set(chars["other"])) == sorted(allowed_other), "literal-chars|%s|digit" % ev,
            "%s a literal continues over ASCII digits%s only (no sign, no exponent letter)" % (tag, " and '.'" if want_dot else ""), w, str(chars))
+    # every consumed character is pushed, unconditionally within the character-class test; nothing else feeds the buffer
+    okloop, why = scan_loop_discipline(t)
+    run.ob(okloop, "literal-loop|%s|digit" % ev, "%s the scanner pushes every character it consumes (and nothing else) into the literal text" % tag, w, why)
+    okpay, why = payload_discipline(t, {"Token::Num"})
+    run.ob(okpay, "literal-payload|%s|digit" % ev, "%s the token's value is the converter's result on the scanned text and nothing else" % tag, w, why)
     # the payload is not post-processed: Token::Num(<converter result>) possibly wrapped in the evaluator's value constructor
     for s in subterms(t):
         e = M(("Some", ("ctor", "Token::Num", "?v")), s)
